@@ -358,11 +358,13 @@ func c19(r *core.Report, p *core.Prog, thorough bool) {
 	for _, w := range ws {
 		effects = append(effects, w.Instr)
 	}
-	for _, cs := range core.CallsIn(burn, false, func(c *ssa.CallCommon) bool {
+	// Save / EmitEvent made by burn or for it by a helper of the package: judged at the site in burn
+	lifted := LiftCalls(burn, func(c *ssa.CallCommon) bool {
 		m := core.MethodName(c)
 		return m == "Save" || ((m == "EmitEvent") && isSCtxCall(c, m))
-	}) {
-		effects = append(effects, cs.Instr)
+	}, 1)
+	for _, l := range lifted {
+		effects = append(effects, l.Site)
 	}
 	for i, e := range effects {
 		g1 := HasCmp(e.Block(), ".Value", token.GEQ, ".MinBurnAmount")
@@ -400,20 +402,52 @@ func c19(r *core.Report, p *core.Prog, thorough bool) {
 		}
 		r.Check(saved, "C19.nonce", "burn:save-call", p.Pos(burn.Pos()), "the incremented node must be saved")
 	}
-	// report: literals
+	// report: literals, in burn or in a helper it calls (fields then bound to the call's arguments)
+	type litIn struct {
+		l    structLit
+		bind func(ssa.Value) ssa.Value
+	}
+	var lits []litIn
 	for _, l := range literalsOfAny(burn) {
+		lits = append(lits, litIn{l, func(v ssa.Value) ssa.Value { return v }})
+	}
+	for _, cs := range core.CallsIn(burn, false, nil) {
+		hc, ok := cs.Instr.(*ssa.Call)
+		h := core.StaticCallee(cs.Common())
+		if !ok || h == nil || h.Blocks == nil || h.Pkg != burn.Pkg || len(h.Params) != len(hc.Call.Args) {
+			continue
+		}
+		bind := map[*ssa.Parameter]ssa.Value{}
+		for i, prm := range h.Params {
+			bind[prm] = hc.Call.Args[i]
+		}
+		for _, l := range literalsOfAny(h) {
+			lits = append(lits, litIn{l, func(v ssa.Value) ssa.Value {
+				if v == nil {
+					return nil
+				}
+				return core.BindValue(v, bind)
+			}})
+		}
+	}
+	for _, li := range lits {
+		l := li.l
+		fd := func(n string) string { return describe(li.bind(l.Fields[n])) }
 		tn := core.NamedName(l.Alloc.Type())
 		switch {
 		case strings.HasSuffix(tn, ".BurnPayloadResponse"):
-			r.Check(describe(l.Fields["Amount"]) == "trans.Value" && strings.HasSuffix(describe(l.Fields["Nonce"]), ".BurnNonce") && strings.HasSuffix(describe(l.Fields["EthereumAddress"]), ".EthereumAddress"), "C19.report", "burn:response", posOf(p, l.Alloc),
-				fmt.Sprintf("amount=%s nonce=%s address=%s", describe(l.Fields["Amount"]), describe(l.Fields["Nonce"]), describe(l.Fields["EthereumAddress"])))
+			r.Check(fd("Amount") == "trans.Value" && strings.HasSuffix(fd("Nonce"), ".BurnNonce") && strings.HasSuffix(fd("EthereumAddress"), ".EthereumAddress"), "C19.report", "burn:response", posOf(p, l.Alloc),
+				fmt.Sprintf("amount=%s nonce=%s address=%s", fd("Amount"), fd("Nonce"), fd("EthereumAddress")))
 		case strings.HasSuffix(tn, ".BurnTicket"):
-			r.Check(describe(l.Fields["Amount"]) == "trans.Value" && strings.HasSuffix(describe(l.Fields["Nonce"]), ".BurnNonce") && strings.HasSuffix(describe(l.Fields["EthereumAddress"]), ".EthereumAddress"), "C19.report", "burn:ticket-event", posOf(p, l.Alloc),
-				fmt.Sprintf("amount=%s nonce=%s address=%s", describe(l.Fields["Amount"]), describe(l.Fields["Nonce"]), describe(l.Fields["EthereumAddress"])))
+			r.Check(fd("Amount") == "trans.Value" && strings.HasSuffix(fd("Nonce"), ".BurnNonce") && strings.HasSuffix(fd("EthereumAddress"), ".EthereumAddress"), "C19.report", "burn:ticket-event", posOf(p, l.Alloc),
+				fmt.Sprintf("amount=%s nonce=%s address=%s", fd("Amount"), fd("Nonce"), fd("EthereumAddress")))
 		}
 	}
-	for _, cs := range core.CallsIn(burn, false, func(c *ssa.CallCommon) bool { return isSCtxCall(c, "EmitEvent") }) {
-		a := core.CallArgs(cs.Common())
+	for _, l := range lifted {
+		if core.MethodName(l.Call.Common()) != "EmitEvent" {
+			continue
+		}
+		a := l.CallArgs()
 		tag := describe(a[1])
 		idx := describe(a[2])
 		if k, ok := core.ConstInt(a[1]); ok {
@@ -421,9 +455,9 @@ func c19(r *core.Report, p *core.Prog, thorough bool) {
 		}
 		switch tag {
 		case "TagAuthorizerBurn":
-			r.Check(idx == "trans.ClientID", "C19.report", "burn:authorizer-burn-index", p.Pos(cs.Pos()), "indexed by "+idx+" (the burner: burns of different clients must not share an index, the merger keeps one event per index)")
+			r.Check(idx == "trans.ClientID", "C19.report", "burn:authorizer-burn-index", p.Pos(l.Pos()), "indexed by "+idx+" (the burner: burns of different clients must not share an index, the merger keeps one event per index)")
 		case "TagAddBurnTicket":
-			r.Check(strings.HasSuffix(idx, ".EthereumAddress"), "C19.report", "burn:ticket-index", p.Pos(cs.Pos()), "indexed by "+idx)
+			r.Check(strings.HasSuffix(idx, ".EthereumAddress"), "C19.report", "burn:ticket-index", p.Pos(l.Pos()), "indexed by "+idx)
 		}
 	}
 }
